@@ -1286,6 +1286,11 @@ func (ex *Exec) lookupLocalAt(fr *frame, name string, at *ssa.BasicBlock, st *St
 			if obj == nil || obj.Name() != name {
 				continue
 			}
+			if obj.Pkg() != nil && obj.Parent() == obj.Pkg().Scope() {
+				// a package-level variable mentioned in the body is not a local: resolve it through the
+				// package scope (heap location), so that old(v) and v differ across an assignment to it
+				continue
+			}
 			if _, have := fr.env[d.X]; !have {
 				if _, isAlloc := d.X.(*ssa.Alloc); !isAlloc {
 					if _, isC := d.X.(*ssa.Const); !isC {
